@@ -56,6 +56,7 @@ func (w *WalletManager) constructTxIn(inputs []*TxIn, lockTime uint64) (*wire.Ms
 	mtx := &wire.MsgTx{}
 	totalValue := massutil.ZeroAmount()
 	senders := make([]utils.PkScript, 0, len(inputs))
+	spent := make(map[wire.OutPoint]struct{}, len(inputs))
 	for _, input := range inputs {
 		txHash, err := wire.NewHashFromStr(input.TxId)
 		if err != nil {
@@ -64,6 +65,11 @@ func (w *WalletManager) constructTxIn(inputs []*TxIn, lockTime uint64) (*wire.Ms
 		}
 
 		prevOut := wire.NewOutPoint(txHash, input.Vout)
+		if _, dup := spent[*prevOut]; dup {
+			logging.CPrint(logging.ERROR, "duplicate input", logging.LogFormat{"txid": input.TxId, "vout": input.Vout})
+			return nil, nil, massutil.ZeroAmount(), ErrInvalidParameter
+		}
+		spent[*prevOut] = struct{}{}
 		txIn := wire.NewTxIn(prevOut, nil)
 		if lockTime != 0 {
 			txIn.Sequence = wire.MaxTxInSequenceNum - 1 // sequence lock disabled
